@@ -262,3 +262,53 @@ func H_C06_distinct_group() {
 	verif.Assert(verif.Eq(got, refDistinct(proj)), "distinct-over-groups")
 	verif.Reach("end")
 }
+
+// H_C06_distinct_ragged: rows are compared on all their columns, whichever
+// columns the first row has: tables whose rows do not share one key set
+// under DISTINCT *, and unions whose branches have different select lists
+// (narrow branch first and wide branch first).
+func H_C06_distinct_ragged() {
+	n := verif.Choose("rows", maxRows(3, 3)+1)
+	form := verif.Choose("form", 4)
+	doc, rows := numTable(n, "a", "b")
+	for _, r := range rows {
+		verif.Assume(verif.All(verif.NotNegZero(f64of(r["a"])), verif.NotNegZero(f64of(r["b"]))))
+		if form == 0 && verif.Choose("has-b", 2) == 0 {
+			delete(r, "b")
+		}
+	}
+	var sql string
+	var all []any
+	narrow, wide, other := []any{}, []any{}, []any{}
+	for _, r := range rows {
+		narrow = append(narrow, Map{"a": r["a"]})
+		wide = append(wide, Map{"a": r["a"], "b": r["b"]})
+		other = append(other, Map{"b": r["b"]})
+	}
+	switch form {
+	case 0:
+		sql = "SELECT DISTINCT * FROM t"
+		for _, r := range rows {
+			c := Map{}
+			for k, v := range r {
+				c[k] = v
+			}
+			all = append(all, c)
+		}
+	case 1:
+		sql = "SELECT a FROM t UNION SELECT a, b FROM t"
+		all = append(narrow, wide...)
+	case 2:
+		sql = "SELECT a, b FROM t UNION SELECT a FROM t"
+		all = append(wide, narrow...)
+	case 3:
+		sql = "SELECT a FROM t UNION SELECT b FROM t UNION SELECT a, b FROM t"
+		all = append(append(narrow, other...), wide...)
+	}
+	got, ok := runQuery(doc, sql)
+	if !ok {
+		return
+	}
+	verif.Assert(verif.Eq(got, refDistinct(all)), "distinct-on-all-columns")
+	verif.Reach("end")
+}
